@@ -1,4 +1,6 @@
 //! Generated derive types (one chunk of the schema population) and their check tables.
 #![allow(unused, non_snake_case, clippy::all)]
 pub use g_derive_rt::rt;
+// three spellings of the same path occur in the generated definitions
+use minicbor::bytes::{self, ByteSlice};
 include!(concat!(env!("OUT_DIR"), "/generated.rs"));
